@@ -1803,6 +1803,8 @@ package raft
 //@           && len(s) == len(l.unstable.entries) - (l.unstable.offsetInProgress - l.unstable.offset))
 //@ func raft.RawNode.readyWithoutAccept [C05 C07 C08 C02]
 //@   requires wf_rawnode(rn)
+//@   requires #a-arith rn.raft.raftLog.applyingEntsSize < 4611686018427387904
+//@   reveal wf_raftLog, wf_unstable, wf_storage
 //@   case rn.asyncStorageWrites
 //@   case !rn.asyncStorageWrites
 //@   requires #size-accounting [C14] rn.raft.raftLog.applyingEntsPaused || rn.raft.raftLog.applyingEntsSize < rn.raft.raftLog.maxApplyingEntsSize
@@ -1816,7 +1818,60 @@ package raft
 //@        ==> elem(result.Messages, p) == oldelem(rn.raft.msgs, old(rn.raft.msgs.off) + (p - result.Messages.off))))
 //@   ensures #async-deferred-not-direct [C05] rn.asyncStorageWrites ==> len(result.Messages) <= len(rn.raft.msgs) + 2
 //@        && (forall j int :: len(rn.raft.msgs) <= j && j < len(result.Messages) ==> result.Messages[j].GetType() == pb.MsgStorageAppend || result.Messages[j].GetType() == pb.MsgStorageApply)
-//@   ensures #unchanged node_unchanged(rn.raft) && rn.prevHardSt == old(rn.prevHardSt) && rn.prevSoftSt == old(rn.prevSoftSt)
+//@   ensures #committed-batch [C08] ready_committed_wf(rn, result.CommittedEntries)
+//@   ensures #wf wf_rawnode(rn)
+//@   ensures #unchanged node_unchanged(rn.raft) && rn.prevHardSt == old(rn.prevHardSt) && rn.prevSoftSt == old(rn.prevSoftSt) && rn.stepsOnAdvance == old(rn.stepsOnAdvance)
+//@   loop 1 invariant #batch ready_committed_wf(rn, rd.CommittedEntries)
+//@   loop 1 invariant #wf wf_rawnode(rn)
 //@   loop 1 invariant #range 0 <= iter && iter <= len(rn.raft.msgsAfterAppend) && len(rd.Messages) >= len(rn.raft.msgs) && node_unchanged(rn.raft)
 //@   loop 1 invariant #prefix forall p int :: {elem(rd.Messages, p)} rd.Messages.off <= p && p < rd.Messages.off + len(rn.raft.msgs)
 //@        ==> elem(rd.Messages, p) == oldelem(rn.raft.msgs, old(rn.raft.msgs.off) + (p - rd.Messages.off))
+
+//@ -- what acceptReady relies on about the Ready it is given (each conjunct is a postcondition of readyWithoutAccept or a consequence of
+//@ -- nextCommittedEnts' contract): the committed batch ends within (applying, committed] and its size fits the accounting
+//@ pred ready_committed_wf(rn *RawNode, ents []*pb.Entry) := len(ents) > 0 ==> ents[len(ents) - 1] != nil
+//@     && rn.raft.raftLog.applying <= eindex(ents[len(ents) - 1]) && eindex(ents[len(ents) - 1]) <= rn.raft.raftLog.committed
+//@     && rn.raft.raftLog.applyingEntsSize + sumsize(ents, len(ents)) < 18446744073709551616
+
+//@ func raft.RawNode.acceptReady [C05 C07 C08 C14]
+//@   requires wf_rawnode(rn)
+//@   requires #from-ready [C14] ready_committed_wf(rn, rd.CommittedEntries)
+//@   -- usage (documented): in synchronous mode every accepted Ready is followed by Advance before the next one
+//@   requires #advance-called [C14] !rn.asyncStorageWrites ==> len(rn.stepsOnAdvance) == 0
+//@   case rn.asyncStorageWrites
+//@   case !rn.asyncStorageWrites
+//@   ensures #outboxes-handed-over [C05] len(rn.raft.msgs) == 0 && len(rn.raft.msgsAfterAppend) == 0
+//@   ensures #async-nothing-stepped [C05] rn.asyncStorageWrites ==> rn.stepsOnAdvance == old(rn.stepsOnAdvance)
+//@   -- synchronous mode: the node's own deferred acknowledgements (and only messages addressed to itself) wait for Advance
+//@   ensures #self-acks-wait-for-advance [C05] !rn.asyncStorageWrites ==> len(rn.stepsOnAdvance) <= old(len(rn.raft.msgsAfterAppend)) + 2
+//@   ensures #hardstate-remembered [C07] old(rd.HardState != nil && !(rd.HardState.GetTerm() == 0 && rd.HardState.GetVote() == 0 && rd.HardState.GetCommit() == 0)) ==> rn.prevHardSt == old(rd.HardState)
+//@   ensures #hardstate-kept [C07] old(rd.HardState == nil) ==> rn.prevHardSt == old(rn.prevHardSt)
+//@   ensures #apply-cursor [C08] old(len(rd.CommittedEntries) > 0) ==> rn.raft.raftLog.applying == old(eindex(rd.CommittedEntries[len(rd.CommittedEntries) - 1]))
+//@   ensures #apply-cursor-kept [C08] old(len(rd.CommittedEntries) == 0) ==> rn.raft.raftLog.applying == old(rn.raft.raftLog.applying)
+//@   ensures #unstable-in-progress [C05] len(rn.raft.raftLog.unstable.entries) > 0 ==> rn.raft.raftLog.unstable.offsetInProgress == rn.raft.raftLog.unstable.offset + len(rn.raft.raftLog.unstable.entries)
+//@   ensures #rest rn.raft.Term == old(rn.raft.Term) && rn.raft.Vote == old(rn.raft.Vote) && rn.raft.state == old(rn.raft.state) && rn.raft.raftLog.committed == old(rn.raft.raftLog.committed)
+//@        && rn.raft.raftLog.applied == old(rn.raft.raftLog.applied) && rn.raft.raftLog.unstable.entries == old(rn.raft.raftLog.unstable.entries)
+//@   ensures #wf wf_rawnode(rn)
+//@   loop 1 invariant #collect 0 <= iter && iter <= len(rn.raft.msgsAfterAppend) && len(rn.stepsOnAdvance) <= iter
+//@   loop 1 invariant #wf wf_rawnode(rn)
+//@   loop 1 invariant #kept rn.raft.msgsAfterAppend == old(rn.raft.msgsAfterAppend)
+//@        && rn.raft.msgs == old(rn.raft.msgs) && rn.raft.raftLog == old(rn.raft.raftLog) && log_cursors_kept(rn.raft.raftLog) && rn.raft.Term == old(rn.raft.Term) && rn.raft.Vote == old(rn.raft.Vote)
+//@        && rn.raft.state == old(rn.raft.state) && rn.raft.raftLog.unstable.entries == old(rn.raft.raftLog.unstable.entries) && rn.raft.raftLog.unstable.offset == old(rn.raft.raftLog.unstable.offset)
+//@   loop 1 invariant #prev (entry(rd).HardState != nil && !old(entry(rd).HardState.GetTerm() == 0 && entry(rd).HardState.GetVote() == 0 && entry(rd).HardState.GetCommit() == 0) ? rn.prevHardSt == entry(rd).HardState : rn.prevHardSt == old(rn.prevHardSt))
+//@   loop 1 invariant #batch ready_committed_wf(rn, entry(rd).CommittedEntries) && rd.CommittedEntries == entry(rd).CommittedEntries
+
+//@ func raft.RawNode.Ready [C05 C07 C08]
+//@   requires wf_rawnode(rn)
+//@   reveal wf_raftLog, wf_unstable
+//@   requires #size-accounting [C14] rn.raft.raftLog.applyingEntsPaused || rn.raft.raftLog.applyingEntsSize < rn.raft.raftLog.maxApplyingEntsSize
+//@   requires #a-arith rn.raft.raftLog.applyingEntsSize < 4611686018427387904
+//@   requires #advance-called [C14] !rn.asyncStorageWrites ==> len(rn.stepsOnAdvance) == 0
+//@   ensures #outboxes-handed-over [C05] len(rn.raft.msgs) == 0 && len(rn.raft.msgsAfterAppend) == 0
+//@   ensures #entries-all-unstable [C05 C03] len(result.Entries) == old(len(rn.raft.raftLog.unstable.entries) - (rn.raft.raftLog.unstable.offsetInProgress - rn.raft.raftLog.unstable.offset))
+//@        && (len(result.Entries) > 0 ==> result.Entries.arr == old(rn.raft.raftLog.unstable.entries.arr)
+//@              && result.Entries.off == old(rn.raft.raftLog.unstable.entries.off + (rn.raft.raftLog.unstable.offsetInProgress - rn.raft.raftLog.unstable.offset)))
+//@   ensures #hardstate-iff-changed [C07 C02 C05] (result.HardState == nil) <==> old(rn.raft.Term == rn.prevHardSt.GetTerm() && rn.raft.Vote == rn.prevHardSt.GetVote() && rn.raft.raftLog.committed == rn.prevHardSt.GetCommit())
+//@   ensures #hardstate-remembered [C07] result.HardState != nil && !(rn.raft.Term == 0 && rn.raft.Vote == 0 && rn.raft.raftLog.committed == 0) ==> rn.prevHardSt == result.HardState
+//@   ensures #apply-cursor [C08] len(result.CommittedEntries) > 0 ==> rn.raft.raftLog.applying == eindex(result.CommittedEntries[len(result.CommittedEntries) - 1])
+//@   ensures #rest rn.raft.Term == old(rn.raft.Term) && rn.raft.Vote == old(rn.raft.Vote) && rn.raft.state == old(rn.raft.state) && rn.raft.raftLog.committed == old(rn.raft.raftLog.committed)
+//@   ensures #wf wf_rawnode(rn)
